@@ -3,11 +3,13 @@ import XmppModel.Model.Close
 /-! Driver for C10 (see harness/c10 for the line protocol).
 
     hist <serve 0|1> <op,op,…>        -> <res,res,…> <wire items> <outClosed><inClosed> <serve result>
+    whist <failing write index|-> <op,…>  -> <res,…> <wire items> <outClosed> <closing-tag write attempts>
     sched <kind,kind,…> <i,i,…>       -> <wire events> <per goroutine outcome>
 
 ops: c close; t1…t6 the transmit entry points; r read; m/y peer stanza (handler silent /
 handler replies); h/s handler returns a plain error / a stream error; e peer stream error;
-p peer close; g garbage; d close deadline.  kinds: c closer, s<n> sender of n items, e sendError.
+p peer close; g garbage; d close deadline (15 ms, waited for); dp/df/dz SetCloseDeadline(far past /
+far future / zero time); v start Serve.  kinds: c closer, s<n> sender of n items, e sendError.
 -/
 namespace XmppModel.Driver.C10
 open XmppModel XmppModel.Close
@@ -25,6 +27,10 @@ def parseOp (s : String) : Option Hist.Op :=
   | "p" => some .peerClose
   | "g" => some .peerGarbage
   | "d" => some .deadline
+  | "dp" => some (.setDeadline .past)
+  | "df" => some (.setDeadline .future)
+  | "dz" => some (.setDeadline .zero)
+  | "v" => some .startServe
   | _ => none
 
 def showRes : Hist.Res → String
@@ -37,6 +43,18 @@ def showRet : Hist.Ret → String
 
 def showItem : Hist.Item → String
   | .el => "el" | .close => "close"
+
+def parseWOp (s : String) : Option WHist.Op :=
+  match s with
+  | "c" => some .close
+  | "t1" | "t2" | "t3" | "t4" | "t5" | "t6" => some .tx
+  | _ => none
+
+def showWRes : WHist.Res → String
+  | .ok => "ok" | .closedOut => "closedout" | .ioErr => "ioerr"
+
+def showWItem : WHist.Item → String
+  | .el => "el" | .close => "close" | .cut => "cut" | .closeCut => "closecut"
 
 def parseKind (s : String) : Option Lts.Kind :=
   if s == "c" then some .closer
@@ -59,6 +77,11 @@ def handle (args : List String) : Option String :=
     let r := Hist.run (Hist.init sv) l
     let s := r.1
     pure s!"{joinList (r.2.map showRes)} {joinList (s.wire.map showItem)} {showBool s.outClosed}{showBool s.inClosed} {showRet s.serve}"
+  | ["whist", failAt, ops] => do
+    let f ← if failAt == "-" then some none else failAt.toNat?.map some
+    let l ← mapM? parseWOp (splitList ops)
+    let r := WHist.run f WHist.init l
+    pure s!"{joinList (r.2.map showWRes)} {joinList (r.1.wire.map showWItem)} {showBool r.1.outClosed} {r.1.closeAttempts}"
   | ["sched", kinds, sched] => do
     let ks ← mapM? parseKind (splitList kinds)
     let sc ← mapM? (fun (x : String) => x.toNat?) (splitList sched)
